@@ -48,7 +48,7 @@ type CaseResult struct {
 	Evals    int64 `json:"evals,omitempty"`
 	NonTrivN int64 `json:"nontriv_n,omitempty"`
 	FnShard  bool  `json:"fn_shard,omitempty"`
-	// BlownUp: the run flagged its nitrate transport as numerically unstable and mineral N then grew beyond 1e15 kg N/ha
+	// BlownUp: the run flagged its nitrate transport as numerically unstable and mineral N of a layer then grew beyond 1e5 kg N/ha (100 t N/ha in 10 cm of soil)
 	BlownUp bool `json:"blown_up,omitempty"`
 }
 
@@ -62,7 +62,7 @@ func (rc *RunCtx) noteBlowUp(g *hermes.GlobalVarsMain) {
 		return
 	}
 	for z := 0; z < g.N && z < len(g.C1); z++ {
-		if c := g.C1[z]; !finite(c) || c > 1e15 || c < -1e15 {
+		if c := g.C1[z]; !finite(c) || c > 1e5 || c < -1e5 {
 			rc.Res.BlownUp = true
 			rc.Cov("runs_blown_up_after_flagged_instability", 1)
 			return
@@ -187,6 +187,10 @@ func runWithMonitors(rc *RunCtx, root string, args []string, monitors []Monitor)
 		}
 		if ev.G == rc.liveG { // not the copies of the state that kernel checks work on
 			rc.noteBlowUp(ev.G)
+			if !res.BlownUp && strings.HasPrefix(ev.Site, "nclamp:") && ev.G.C1NotStableErr != "" && (ev.Amount > 1e5 || ev.Amount < -1e5 || !finite(ev.Amount)) {
+				res.BlownUp = true // the clamp itself moves more than 100 t N/ha in a flagged run
+				rc.Cov("runs_blown_up_after_flagged_instability", 1)
+			}
 		}
 		if inj != nil {
 			inj.Event(ev, rc)
